@@ -54,6 +54,7 @@ def setup_dab(cx):
     subs = cx.uf('subs', [PNode], TSeq(Item))              # node['graph'].nodes.items(): (key, atom) in the graph's order
     pos_of = cx.uf('pos_of', [Sub], TOpt(Vec))             # atom.get('position')
     cw_get = cx.uf('cw_get', [Sub, WOpt], TReal)           # atom.get(weight, 1)
+    has_attr = cx.uf('has_attr', [Sub, WOpt], TBool)       # weight in atom
     mw_get = cx.uf('mw_get', [PNode, AKey], TReal)         # node.get('mapping_weights', {}).get(key, 1)
     wmean = cx.uf('wmean', [TSeq(Vec), TSeq(TReal)], Vec)  # numpy.average(positions, axis=0, weights=weights)
     cx.uf('PSEQ', [PNode], TSeq(Vec))
@@ -88,6 +89,7 @@ def setup_dab(cx):
             return SV(Vec, TOpt(Vec).get(pos_of(se)))
         o.attrs['get'] = Builtin(get, 'atom.get')
         o.attrs['__getitem__'] = Builtin(item, 'atom[]')
+        o.attrs['__contains__'] = Builtin(lambda e, k: wrap(TBool, has_attr(se, to_z3(k, WOpt))), 'in atom')
         return o
 
     def node_view(pe):
@@ -225,6 +227,42 @@ average_loop = FunctionContract(
             ("node.get('mapping_weights', {}).get(subnode_key, 1) * subnode.get(weight, 1)", "node.get('mapping_weights', {}).get(subnode_key, 1)")],
 )
 CONTRACTS.append(average_loop)
+
+
+# ------------------------------------------------------------------ do_average_bead: what is checked before anything is moved
+SPEC_VAL = {
+    # particle i represents atoms, and one of them lacks the attribute the average is to be weighted with
+    'lacks_weight': "lambda i: has_graph(pnodes[i]) and weight is not None and "
+                    "exists(lambda k: 0 <= k and k < len(subs(pnodes[i])) and not has_attr(subs(pnodes[i])[k][1], weight))",
+    'no_graph': "lambda i: not has_graph(pnodes[i])",
+}
+validation = FunctionContract(
+    F, 'do_average_bead', 'C09', short='do_average_bead[validation]', setup=setup_dab, spec_defs=SPEC_VAL,
+    spec_env=dict(PNode=PNode, Sub=Sub, AKey=AKey, Vec=Vec),
+    region=dict(start="missing = []", end="for node in molecule.nodes.values():", end_nth=2),
+    locals=dict(missing=TSeq(PNode)),
+    ensures=[
+        # the averaging starts only if every particle that represents atoms has the weighting attribute on all of them, and
+        # - unless missing graphs are to be ignored - every particle represents atoms; nothing has been moved
+        "forall(lambda i: implies(0 <= i and i < len(pnodes), not lacks_weight(i)))",
+        "implies(not ignore_missing_graphs, forall(lambda i: implies(0 <= i and i < len(pnodes), not no_graph(i))))",
+    ],
+    raises={
+        # KeyError: at the first particle with an atom that lacks the weighting attribute
+        'KeyError': ["exists(lambda i: 0 <= i and i < len(pnodes) and lacks_weight(i))"],
+        # ValueError: some particle represents no atoms, that is not to be ignored, and no particle lacks a weight
+        'ValueError': ["not ignore_missing_graphs and exists(lambda i: 0 <= i and i < len(pnodes) and no_graph(i))",
+                       "forall(lambda i: implies(0 <= i and i < len(pnodes), not lacks_weight(i)))"],
+    },
+    modifies=[],
+    loops={'L1': LoopSpec(inv=["forall(lambda i: implies(0 <= i and i < _i, not lacks_weight(i)))",
+                               "(len(missing) > 0) == exists(lambda i: 0 <= i and i < _i and no_graph(i))"],
+                          modifies=['missing'])},
+    canary=[("if missing and not ignore_missing_graphs:", "if missing and ignore_missing_graphs:"),
+            ("if not have_all_weights:", "if have_all_weights:"),
+            ("if 'graph' not in node:", "if 'graph' in node:")],
+)
+CONTRACTS.append(validation)
 
 
 # ------------------------------------------------------------------ DoAverageBead.run_molecule: which weight is used
